@@ -1,4 +1,7 @@
-use crate::nodes::{Block, FunctionAssignment, FunctionExpression, Statement, VariableAssignment};
+use crate::nodes::{
+    Block, FunctionAssignment, FunctionExpression, Statement, Token, VariableAssignment,
+    VariableAssignmentTokens,
+};
 use crate::process::{processors::FindVariables, DefaultVisitor, NodeProcessor, NodeVisitor};
 use crate::rules::{
     Context, FlawlessRule, RuleConfiguration, RuleConfigurationError, RuleMetadata, RuleProperties,
@@ -25,10 +28,32 @@ impl Processor {
             local_function.mutate_parameters(),
         );
 
-        VariableAssignment::from_variable(local_function.get_name())
-            .with_assignment_kind(kind)
-            .with_value(function_expression)
-            .into()
+        // the tokens (their lines, comments) follow the nodes they belong to
+        let tokens = local_function.mutate_tokens().map(|tokens| tokens.clone());
+        let mut assignment =
+            VariableAssignment::from_variable(local_function.get_identifier().clone())
+                .with_assignment_kind(kind);
+
+        if let Some(mut tokens) = tokens {
+            // `function` moves behind the name: what was written between `local` and the name
+            // (the comments around the `function` keyword) stays there
+            let function_token = &mut tokens.function_body.function;
+            let mut moved_trivia: Vec<_> = function_token.drain_leading_trivia().collect();
+            moved_trivia.extend(function_token.drain_trailing_trivia());
+            for trivia in moved_trivia {
+                tokens.keyword.push_trailing_trivia(trivia);
+            }
+
+            function_expression.set_tokens(tokens.function_body);
+            assignment.set_tokens(VariableAssignmentTokens {
+                keyword: tokens.keyword,
+                equal: Some(Token::from_content("=")),
+                variable_commas: Vec::new(),
+                value_commas: Vec::new(),
+            });
+        }
+
+        assignment.with_value(function_expression).into()
     }
 }
 
